@@ -14,8 +14,9 @@ CONSTANTS
   DelHi = {2, 3, 5, 8, 9, 14}
   MaxPend = 3
   AllowKF = {}
-  KFInitOpts = TRUE
-  KFV1Hist = TRUE
+  KFInitOpts = FALSE
+  KFV1Hist = FALSE
+  PreT = {}
   Balanced = TRUE
   EmitMode = "none"
 INVARIANTS C01_Exact InoSorted OohSorted EmitWalk
